@@ -530,7 +530,7 @@ def merge_cases(rep: Report, found: Found, cls, rng: Rng, progs, rounds):
             cfg["enable_lifetime"] = rng.choice([True, False])
         weighted = rng.random() < 0.4
         # ---- flat merge of un-merged sources into a fresh / updated / wrapped target
-        for kt in (0, 1, N, N + 2):
+        for kt in (0, 1, N, N + 1, 2 * N + 1):        # fresh / partial / exactly full / wrapped with the cursor inside the buffer (twice)
             for ks in ((1,), (N, 2), (N + 1, 0, 1)):
                 p = Prog(spec, cfg)
                 data = {0: [gen_for(cls, cfg, rng, weighted) for _ in range(kt)]}
